@@ -136,6 +136,43 @@ Theorem C18_bandpass_plus_bandstop : forall ts col pre s e post u lp0 lp1 c,
 Proof. exact sinc_band_complementary. Qed.
 Print Assumptions C18_bandpass_plus_bandstop.
 
+(* ... and over the whole signal when the support holds every sample (always the case for a time series) *)
+Theorem C18_lowpass_plus_highpass_whole : forall ts col ep u kern c, length kern = (2 * c + 1)%nat ->
+  sortedZ ts -> length col = length ts -> canonical ep -> Forall (fun t => mem t ep = true) ts ->
+  vadd (sinc_filter ts col ep kern) (sinc_filter ts col ep (sinc_highpass u kern)) = vscale u col.
+Proof. exact sinc_complementary_whole. Qed.
+Print Assumptions C18_lowpass_plus_highpass_whole.
+
+Theorem C18_bandpass_plus_bandstop_whole : forall ts col ep u lp0 lp1 c,
+  length lp0 = (2 * c + 1)%nat -> length lp1 = (2 * c + 1)%nat ->
+  sortedZ ts -> length col = length ts -> canonical ep -> Forall (fun t => mem t ep = true) ts ->
+  vadd (sinc_filter ts col ep (sinc_bandstop u lp0 lp1)) (sinc_filter ts col ep (sinc_bandpass u lp0 lp1)) = vscale u col.
+Proof. exact sinc_band_complementary_whole. Qed.
+Print Assumptions C18_bandpass_plus_bandstop_whole.
+
+(* smooth = convolve with the (gaussian) window, 'both' trim: per epoch, independent, linear, same rows *)
+Theorem C18_smooth_epoch_window : forall ts col pre s e post window, window <> [] -> length col = length ts ->
+  canonical (pre ++ (s, e) :: post) ->
+  slice (ss_left s ts) (ss_right e ts) (smooth_epochs ts col (pre ++ (s, e) :: post) window)
+  = conv_window TBoth window (slice (ss_left s ts) (ss_right e ts) col).
+Proof. exact smooth_window. Qed.
+Print Assumptions C18_smooth_epoch_window.
+
+Theorem C18_smooth_independent : forall ts col col' pre s e post window, window <> [] ->
+  length col = length ts -> length col' = length ts -> canonical (pre ++ (s, e) :: post) ->
+  slice (ss_left s ts) (ss_right e ts) col = slice (ss_left s ts) (ss_right e ts) col' ->
+  slice (ss_left s ts) (ss_right e ts) (smooth_epochs ts col (pre ++ (s, e) :: post) window)
+  = slice (ss_left s ts) (ss_right e ts) (smooth_epochs ts col' (pre ++ (s, e) :: post) window).
+Proof. exact smooth_independent. Qed.
+Print Assumptions C18_smooth_independent.
+
+Theorem C18_smooth_linear_time_axis : forall ts a b x y ep window, window <> [] -> length x = length ts -> length y = length ts ->
+  canonical ep ->
+  smooth_epochs ts (lin a b x y) ep window = lin a b (smooth_epochs ts x ep window) (smooth_epochs ts y ep window)
+  /\ length (smooth_epochs ts x ep window) = length ts.
+Proof. exact smooth_linear_length. Qed.
+Print Assumptions C18_smooth_linear_time_axis.
+
 (* 11. Butterworth (PARTIAL): for ANY length-preserving per-slice routine F, the result has one row per
        timestamp, the rows of an interval are F of that interval's rows alone (independence), and the
        whole is linear if F is *)
